@@ -49,6 +49,10 @@ type histCase struct {
 	qs   []string
 	ls   []listReq
 	tags []string
+	// xl: extra labels asked for with every listing request (none: not exercised)
+	xl []string
+	// il: run on a file-backed database (several connections) and interleave open iterators
+	il bool
 }
 
 func (c *histCase) encode(id string) string {
@@ -72,7 +76,11 @@ func (c *histCase) encode(id string) string {
 	if len(c.tags) > 0 {
 		tags = strings.Join(c.tags, "+")
 	}
-	return fmt.Sprintf("case %s kind=hist ups=%s qs=%s ls=%s uni=%s tag=%s", id, strings.Join(us, ";"), hx.HexListS(c.qs), lss, c.uniTable(), tags)
+	il := 0
+	if c.il {
+		il = 1
+	}
+	return fmt.Sprintf("case %s kind=hist ups=%s qs=%s ls=%s uni=%s xl=%s il=%d tag=%s", id, strings.Join(us, ";"), hx.HexListS(c.qs), lss, c.uniTable(), hx.HexListS(c.xl), il, tags)
 }
 
 // uniTable lists the toolchain's classification of every non-ASCII rune of the case
@@ -152,6 +160,14 @@ func decodeHist(line string) *histCase {
 	}
 	if t, ok := hx.Field(line, "tag"); ok && t != "trivial" {
 		c.tags = strings.Split(t, "+")
+	}
+	if x, ok := hx.Field(line, "xl"); ok {
+		for _, e := range hx.UnHexList(x) {
+			c.xl = append(c.xl, string(e))
+		}
+	}
+	if v, ok := hx.Field(line, "il"); ok && v == "1" {
+		c.il = true
 	}
 	return c
 }
@@ -276,12 +292,25 @@ func parseErrTag(err error) string {
 // ---------------------------------------------------------------- running a history
 
 func runHist(id string, c *histCase) {
-	d, err := db.OpenSQL("sqlite3", ":memory:")
+	dsn := ":memory:"
+	if c.il {
+		// several connections onto one database: needed to keep two iterators open at once
+		f, err := os.CreateTemp("", "c19-*.db")
+		if err != nil {
+			panic(err)
+		}
+		f.Close()
+		dsn = f.Name()
+		defer os.Remove(dsn)
+	}
+	d, err := db.OpenSQL("sqlite3", dsn)
 	if err != nil {
 		panic(err)
 	}
 	defer d.Close()
-	db.VerifSingleConn(d)
+	if !c.il {
+		db.VerifSingleConn(d)
+	}
 	a := &app.App{DB: d, FS: fs.NewMemFS(), Auth: func(w http.ResponseWriter, r *http.Request) (string, error) {
 		u, _ := hex.DecodeString(r.Header.Get("X-User"))
 		return string(u), nil
@@ -341,9 +370,15 @@ func runHist(id string, c *histCase) {
 		}
 		// db.Query
 		var recs, srecs []string
+		// every result is KEPT while the iteration goes on and rendered only afterwards: a Result must
+		// not change once handed out (the Reader shares label maps between consecutive results)
+		var kept []*benchfmt.Result
 		dq := d.Query(q)
 		for dq.Next() {
-			recs = append(recs, recStr(dq.Result()))
+			kept = append(kept, dq.Result())
+		}
+		for _, r := range kept {
+			recs = append(recs, recStr(r))
 		}
 		dbS := joinSorted(recs)
 		if dq.Err() != nil {
@@ -353,10 +388,14 @@ func runHist(id string, c *histCase) {
 		// Client.Query (the server refuses an empty q parameter)
 		recs = nil
 		clS, spS := "", ""
+		kept = nil
 		cq := cl.Query(ctx, q)
 		for cq.Next() {
-			recs = append(recs, recStr(cq.Result()))
-			srecs = append(srecs, specRec(cq.Result()))
+			kept = append(kept, cq.Result())
+		}
+		for _, r := range kept {
+			recs = append(recs, recStr(r))
+			srecs = append(srecs, specRec(r))
 		}
 		clS, spS = joinSorted(recs), joinSorted(srecs)
 		if cq.Err() != nil {
@@ -368,7 +407,92 @@ func runHist(id string, c *histCase) {
 			hx.Printf("sobs %s q%d res=%s\n", id, j, spS)
 		}
 	}
+	if c.il {
+		render := func(rs []*benchfmt.Result, err error) string {
+			if err != nil {
+				return errTag(err)
+			}
+			var out []string
+			for _, r := range rs {
+				out = append(out, recStr(r))
+			}
+			return joinSorted(out)
+		}
+		for j := 0; j+1 < len(c.qs); j += 2 {
+			qa, qb := c.qs[j], c.qs[j+1]
+			// two db.Query iterators open at once, advanced in turn
+			a, b := d.Query(qa), d.Query(qb)
+			var ka, kb []*benchfmt.Result
+			for moreA, moreB := true, true; moreA || moreB; {
+				if moreA {
+					if moreA = a.Next(); moreA {
+						ka = append(ka, a.Result())
+					}
+				}
+				if moreB {
+					if moreB = b.Next(); moreB {
+						kb = append(kb, b.Result())
+					}
+				}
+			}
+			sa, sb := render(ka, a.Err()), render(kb, b.Err())
+			a.Close()
+			b.Close()
+			// the same with two Client.Query iterators of one Client
+			ca, cb := cl.Query(ctx, qa), cl.Query(ctx, qb)
+			ka, kb = nil, nil
+			for moreA, moreB := true, true; moreA || moreB; {
+				if moreB {
+					if moreB = cb.Next(); moreB {
+						kb = append(kb, cb.Result())
+					}
+				}
+				if moreA {
+					if moreA = ca.Next(); moreA {
+						ka = append(ka, ca.Result())
+					}
+				}
+			}
+			sca, scb := render(ka, ca.Err()), render(kb, cb.Err())
+			ca.Close()
+			cb.Close()
+			hx.Printf("obs %s il%d a=%s b=%s ca=%s cb=%s\n", id, j, sa, sb, sca, scb)
+			// an iterator abandoned after the first result: Err before exhaustion, early Close
+			e := d.Query(qa)
+			got := e.Next()
+			bad := e.Err() != nil
+			e.Close()
+			hx.Printf("obs %s ec%d next=%v err=%v\n", id, j, got, bad)
+		}
+	}
+	showX := func(next func() bool, info func() storage.UploadInfo, errf func() error) string {
+		var rows []string
+		for next() {
+			ui := info()
+			rows = append(rows, hx.HexS(ui.UploadID)+":"+strconv.Itoa(ui.Count)+":"+labelsStr(ui.LabelValues))
+		}
+		if errf() != nil {
+			return errTag(errf())
+		}
+		if len(rows) == 0 {
+			return "-"
+		}
+		return strings.Join(rows, ",")
+	}
 	for j, l := range c.ls {
+		if len(c.xl) > 0 {
+			// the same listing with extra labels, twice on the same DB / Client with different sets
+			var outs []string
+			for _, xs := range [][]string{c.xl, {"upload-time"}} {
+				dl := d.ListUploads(l.q, xs, l.limit)
+				outs = append(outs, showX(dl.Next, dl.Info, dl.Err))
+				dl.Close()
+				cll := cl.ListUploads(ctx, l.q, xs, l.limit)
+				outs = append(outs, showX(cll.Next, cll.Info, cll.Err))
+				cll.Close()
+			}
+			hx.Printf("obs %s lx%d db1=%s cl1=%s db2=%s cl2=%s\n", id, j, outs[0], outs[1], outs[2], outs[3])
+		}
 		show := func(next func() bool, info func() storage.UploadInfo, errf func() error) string {
 			var rows []string
 			for next() {
@@ -872,6 +996,24 @@ func (g *gen) hist(mode int) *histCase {
 		}
 		c.ls = append(c.ls, listReq{"name>", 2}, listReq{"name>", nup - 1}, listReq{"upload>2025", 3},
 			listReq{"k:a name:Foo", 2}, listReq{"k<b", hx.Pick(r, []int{1, 2, 3, 5, 9, 10, 11})}, listReq{"", nup - 1})
+	}
+	// extra labels whose value is the same for every record of an upload (the server picks "one
+	// unspecified record"): by only when no file can set it
+	c.xl = []string{"upload", "upload-time", "nosuch"}
+	hasBy := false
+	for _, u := range c.ups {
+		for _, f := range u.files {
+			if strings.Contains(f.content, "by:") || strings.Contains(f.content, "by=") {
+				hasBy = true
+			}
+		}
+	}
+	if !hasBy {
+		c.xl = append(c.xl, "by")
+	}
+	if mode == 0 && r.Chance(1, 6) {
+		c.il = true
+		tags["interleave"] = true
 	}
 	for t := range tags {
 		c.tags = append(c.tags, t)
